@@ -52,7 +52,7 @@ class Ctx:
         self.replay_root = os.path.join(VERIF, "evidence", "replay", pid)
         shutil.rmtree(self.replay_root, ignore_errors=True)
         self._vseen = set()
-        self.max_reported = 25
+        self.max_reported = 80
 
     # ---- randomness -------------------------------------------------------
     def rng(self, *what):
